@@ -107,7 +107,7 @@ def run_case(case):
                 detail = bobq.query(proj, develop=develop, want=("detail",))
                 for ent in detail.values():
                     s = ent["steps"]["src"]
-                    if s.get("valid"):
+                    if s.get("valid") and s.get("ws"):
                         det[os.path.dirname(s["ws"])] = s.get("deterministic")
                 bad = []
                 for label, script in buildsim.step_scripts(r2):
